@@ -16,6 +16,7 @@ func init() {
 	register("C14", "R1", 4, "exclusive VM per evaluation: the pool's FindProxyForURL takes a resolver, evaluates on it and puts it back exactly once on every path, without storing or returning it; only pool-backed resolvers are handed to the proxy as PACResolver (a bare ProxyResolver is one VM and not safe for concurrent use)", c14r1)
 	register("C14", "R2", 4, "helper coverage: the Go-registered helper names together with the functions of the embedded JavaScript prelude contain every standard PAC helper, none defined twice; the IPv4 helper resolves with network ip4, the Ex helper with ip", c14r2)
 	register("C14", "R3", 4, "result checks: an evaluation succeeds only with a string, ASCII result; a script error is returned; a resolver is constructed only when exactly one entry point is defined, and that one is called", c14r3)
+	register("C14", "R5", 3, "a result-list entry is accepted only when well-formed: parseProxy returns without error only for the empty entry, the bare word DIRECT, or keyword SP host:port with a host:port that splits - and then with that keyword's mode, host and port; everything else is an error", c14r5)
 	register("C14", "R4", 5, "result-list tables: parseMode covers every Mode constant under its own keyword with default DIRECT; the generated Mode names agree with the constant block; Proxy.URL maps DIRECT to nil and PROXY to http", c14r4)
 }
 
@@ -284,3 +285,39 @@ func c14r4(r *R) {
 	c05r4(r)
 }
 
+
+func c14r5(r *R) {
+	pp := r.fn("pac", "parseProxy")
+	ps, complete := enumPaths(pp, 256, 1)
+	if !complete {
+		r.undecided("parseProxy#paths", pp.Pos(), "too many paths")
+		return
+	}
+	const in = "strings.TrimSpace($0)"
+	cut := "strings.Cut(" + in + ", \" \")"
+	split := "net.SplitHostPort(" + cut + "#1)"
+	for i, p := range ps {
+		key := fmt.Sprintf("parseProxy#path%d", i)
+		if len(p.Ret) != 2 {
+			r.undecided(key, p.pos(), "unexpected result arity")
+			continue
+		}
+		if p.Ret[1] != "nil" {
+			r.ok(key, p.pos(), "rejected with "+shorten(p.Ret[1], 60))
+			continue
+		}
+		switch {
+		case p.holds("(" + in + " == \"\")"):
+			r.check(p.Ret[0] == "pac.noProxy" || p.Mem[p.Ret[0]+".Mode"] == "0:pac.Mode" || p.Mem[p.Ret[0]+".Mode"] == "", key, p.pos(), "empty entry: DIRECT", "the empty entry yields "+p.Ret[0])
+		case p.holds("(" + in + " == \"DIRECT\")"):
+			host, port := p.Mem[p.Ret[0]+".Host"], p.Mem[p.Ret[0]+".Port"]
+			r.check(host == "" && port == "", key, p.pos(), "the bare word DIRECT", "DIRECT entry carries host "+host+" port "+port)
+		case p.holds(cut+"#2") && p.holds("("+split+"#2 == nil)"):
+			mode, host, port := p.Mem[p.Ret[0]+".Mode"], p.Mem[p.Ret[0]+".Host"], p.Mem[p.Ret[0]+".Port"]
+			good := mode == "pac.parseMode("+cut+"#0)" && host == split+"#0" && port == split+"#1"
+			r.check(good, key, p.pos(), "keyword SP host:port: mode of the keyword, host and port of the split", fmt.Sprintf("a well-formed entry yields mode=%s host=%s port=%s", shorten(mode, 60), shorten(host, 60), shorten(port, 60)))
+		default:
+			r.bad(key, p.pos(), "an entry is accepted (nil error) although it is neither empty, DIRECT, nor keyword SP host:port that splits: on ["+strings.Join(p.Conds, " ∧ ")+"]")
+		}
+	}
+}
